@@ -416,13 +416,13 @@ class Body:
             return {"kind": "rv", "rv": rv}
         return {"kind": "unknown"}
 
-    def _resolve_base(self, p, limit=20):
+    def _resolve_base(self, p, limit=20, through_named=False):
         """Rewrite a place whose base local is a single-def temp holding `&place2` / copy of place2
         into a place rooted at place2's base (concatenating projections)."""
         cur = p
         for _ in range(limit):
             l = cur["l"]
-            if 1 <= l <= self.nargs or self.local_name(l):
+            if 1 <= l <= self.nargs or (self.local_name(l) and not through_named):
                 return cur
             rv = self.def_rvalue(l)
             if rv is None or rv["k"] == "call":
@@ -480,8 +480,8 @@ class Body:
             return None
         return None
 
-    def resolve_place(self, p):
-        return self._resolve_base(p)
+    def resolve_place(self, p, through_named=False):
+        return self._resolve_base(p, through_named=through_named)
 
     def const_of(self, op):
         r = self.trace(op)
